@@ -10,7 +10,7 @@ ASSUMPTIONS = ["entries that cannot fit one 8966-byte datagram on their own are 
 
 
 def floors(tier):
-    n = 2000 if tier == "quick" else 100000
+    n = 12000 if tier == "quick" else 600000
     return {"c14.size": n, "c14.header": n, "c14.accounting": n}
 
 
